@@ -126,16 +126,16 @@ func c07Alphabet(reduced bool) exprAlphabet {
 			model.Int:    {model.ColE("i"), model.ColE("i2"), model.IntE(2), model.IntE(10)},
 			model.Float:  {model.ColE("f"), model.FloatE(2.5)},
 			model.Bool:   {model.ColE("b"), model.BoolE(true)},
-			model.String: {model.ColE("s"), model.StrE("x"), model.NilE()},
+			model.String: {model.ColE("s"), model.StrE("x"), model.StrE(""), model.NilE()},
 		},
 		unary: map[model.Kind][]struct {
 			op  string
 			arg model.Kind
 		}{
-			model.Int:    {{"abs", model.Int}, {"neg", model.Int}, {"int", model.Float}, {"int", model.Bool}, {"len", model.String}},
+			model.Int:    {{"abs", model.Int}, {"neg", model.Int}, {"int", model.Float}, {"int", model.Bool}, {"len", model.String}, {"lenor", model.String}},
 			model.Float:  {{"abs", model.Float}, {"float", model.Int}},
-			model.Bool:   {{"!", model.Bool}, {"bool", model.Int}},
-			model.String: {{"str", model.Int}, {"str", model.Float}, {"str", model.Bool}, {"str", model.String}, {"upper", model.String}, {"lower", model.String}},
+			model.Bool:   {{"!", model.Bool}, {"bool", model.Int}, {"isnil", model.String}},
+			model.String: {{"str", model.Int}, {"str", model.Float}, {"str", model.Bool}, {"str", model.String}, {"upper", model.String}, {"lower", model.String}, {"fill", model.String}},
 		},
 		binary: map[model.Kind][]string{
 			model.Int:    {"+", "-", "*", "/", "sub2"},
@@ -275,6 +275,8 @@ func c07Run(ctx *core.Ctx) {
 	// plus bare enum column and enum operations
 	wellTyped = append(wellTyped, model.ColE("e"), model.Call("upper", model.ColE("e")), model.Call("+", model.ColE("e"), model.ColE("e")),
 		model.Call("+", model.Call("str", model.ColE("e")), model.ColE("s")), model.Call("len", model.ColE("e")),
+		model.Call("fill", model.ColE("e")), model.Call("isnil", model.ColE("e")), model.Call("lenor", model.ColE("e")),
+		model.Call("+", model.Call("fill", model.ColE("e")), model.StrE("!")), model.Call("+", model.ColE("e"), model.StrE("")), model.Call("+", model.StrE(""), model.ColE("e")),
 		model.ColE("colcol-temp-0"), model.Call("+", model.ColE("colcol-temp-0"), model.ColE("i")), model.Call("+", model.ColE("i"), model.Call("abs", model.ColE("colcol-temp-0"))))
 	runAll(wellTyped, "typed-depth2", ctx.Quick() == false)
 	if !ctx.Quick() {
@@ -404,7 +406,7 @@ func init() {
 		ID:    "C07",
 		Setup: func() { c07Env_() },
 		Level: "model_checking",
-		Rule: "case = (index shape, destination, expression tree, construction style Expr / raw list / Val-wrapped leaves, default or user context). All well-typed trees of depth <= 2 over 11 leaves (columns and constants of every type incl. nil), 19 unary and 14 binary function/type pairs, " +
+		Rule: "case = (index shape, destination, expression tree, construction style Expr / raw list / Val-wrapped leaves, default or user context). All well-typed trees of depth <= 2 over 12 leaves (columns and constants of every type incl. nil and the empty string), 22 unary (incl. user functions that map null to a non-zero result) and 14 binary function/type pairs, " +
 			"(thorough: depth 3 over a reduced alphabet), n-ary calls with 3-4 arguments, each with 4 destinations (new, source column, other columns); plus invalid trees obtained by single mutations (unknown function/column, wrong operand type at every argument position, zero arguments, non-string operator) and illegal destination names. " +
 			"Non-trivial = the model accepts the expression; distinct by (dst, expression text, style, context).",
 		Assumptions: []string{
